@@ -1,6 +1,7 @@
 package ptracker
 
 import (
+	"crypto/sha256"
 	"fmt"
 	"runtime"
 	"strings"
@@ -112,6 +113,12 @@ func (s *searcher) enabled(sp *Spec) []Op {
 		ops = f
 	}
 	return ops
+}
+
+// hashKey shortens a state key to 128 bits (the full keys of millions of states do not fit in memory).
+func hashKey(k string) string {
+	h := sha256.Sum256([]byte(k))
+	return string(h[:16])
 }
 
 func emitLabel(m Emit) string {
@@ -297,7 +304,7 @@ func (s *searcher) expand(h []step) (out []succ, unspecified bool, replays int) 
 				sc.class, sc.msg = s.judge(w, sp, op2, before, must, may, err)
 			}
 			if sc.class == "" {
-				sc.key = w.Key() + "#" + sp.Key()
+				sc.key = hashKey(w.Key() + "#" + sp.Key())
 				open := 0
 				for _, ss := range sp.sess {
 					if ss.status == sUnbound || ss.status == sBound {
@@ -344,7 +351,7 @@ func (s *searcher) expand(h []step) (out []succ, unspecified bool, replays int) 
 func Search(run *mc.Run, cfg *Config) *Result {
 	s := &searcher{cfg: cfg, run: run, seen: map[string]bool{}, nt: map[string]bool{}}
 	w0, sp0 := s.replay(nil)
-	s.seen[w0.Key()+"#"+sp0.Key()] = true
+	s.seen[hashKey(w0.Key()+"#"+sp0.Key())] = true
 	w0.Close()
 	frontier := [][]step{nil}
 	s.res.Complete = true
@@ -362,64 +369,75 @@ func Search(run *mc.Run, cfg *Config) *Result {
 			unspec  bool
 			replays int
 		}
-		results := make([]res, len(frontier))
-		var wg sync.WaitGroup
-		var next int64 = -1
-		for wk := 0; wk < workers; wk++ {
-			wg.Add(1)
-			go func() {
-				defer wg.Done()
-				for {
-					i := int(atomic.AddInt64(&next, 1))
-					if i >= len(frontier) {
-						return
-					}
-					o, u, r := s.expand(frontier[i])
-					results[i] = res{o, u, r}
-				}
-			}()
-		}
-		wg.Wait()
 		var nf [][]step
-		for _, r := range results {
-			s.res.Replays += r.replays
-			if r.unspec {
-				s.res.Unspecified++
+		const chunk = 4096 // nodes expanded in parallel before their successors are merged (bounds memory)
+		for lo := 0; lo < len(frontier); lo += chunk {
+			hi := lo + chunk
+			if hi > len(frontier) {
+				hi = len(frontier)
 			}
-			for _, sc := range r.out {
-				s.res.Transitions++
-				if sc.perm {
-					s.res.PermChoices++
-				}
-				if sc.unspec {
-					continue
-				}
-				if strings.HasPrefix(sc.class, "panic-or-deadlock") {
-					panics++
-				}
-				if sc.class != "" {
-					key := cfg.Name + ":" + sc.class
-					if !violKeys[key] {
-						violKeys[key] = true
-						run.Violation(key, map[string]any{"config": cfg.Name, "history": sc.h2},
-							fmt.Sprintf("history: %s\n%s", histString(sc.h2), sc.msg))
+			part := frontier[lo:hi]
+			results := make([]res, len(part))
+			var wg sync.WaitGroup
+			var next int64 = -1
+			for wk := 0; wk < workers; wk++ {
+				wg.Add(1)
+				go func() {
+					defer wg.Done()
+					for {
+						i := int(atomic.AddInt64(&next, 1))
+						if i >= len(part) {
+							return
+						}
+						o, u, r := s.expand(part[i])
+						results[i] = res{o, u, r}
 					}
-					continue
+				}()
+			}
+			wg.Wait()
+			for _, r := range results {
+				s.res.Replays += r.replays
+				if r.unspec {
+					s.res.Unspecified++
 				}
-				if sc.fan {
-					s.res.FanOut++
-					continue
-				}
-				if !s.seen[sc.key] {
-					s.seen[sc.key] = true
-					nf = append(nf, sc.h2)
-					if sc.nontriv {
-						s.res.NonTrivial++
+				for _, sc := range r.out {
+					s.res.Transitions++
+					if sc.perm {
+						s.res.PermChoices++
 					}
-					if len(s.res.Samples) < 3 && len(sc.h2) >= 6 {
-						s.res.Samples = append(s.res.Samples, histString(sc.h2))
+					if sc.unspec {
+						continue
+					}
+					if strings.HasPrefix(sc.class, "panic-or-deadlock") {
+						panics++
+					}
+					if sc.class != "" {
+						key := cfg.Name + ":" + sc.class
+						if !violKeys[key] {
+							violKeys[key] = true
+							run.Violation(key, map[string]any{"config": cfg.Name, "history": sc.h2},
+								fmt.Sprintf("history: %s\n%s", histString(sc.h2), sc.msg))
+						}
+						continue
+					}
+					if sc.fan {
+						s.res.FanOut++
+						continue
+					}
+					if !s.seen[sc.key] {
+						s.seen[sc.key] = true
+						nf = append(nf, sc.h2)
+						if sc.nontriv {
+							s.res.NonTrivial++
+						}
+						if len(s.res.Samples) < 3 && len(sc.h2) >= 6 {
+							s.res.Samples = append(s.res.Samples, histString(sc.h2))
+						}
 					}
 				}
+			}
+			if cfg.MaxStates > 0 && len(s.seen) >= cfg.MaxStates || run.Expired() || panics >= 3 {
+				break
 			}
 		}
 		frontier = nf
